@@ -60,7 +60,9 @@ def one(ctx, it, v, ask, label):
             ok = addrs == want and addrs == sorted(set(addrs))
             for a, x in pairs:
                 y = v
-                for k in a: y = y[k]
+                try:
+                    for k in a: y = y[k]
+                except (IndexError, TypeError): ok = False; break
                 ok = ok and (y is x or y == x)
             if not ok: ctx.fail('enum_at_depth: missing / repeated / unordered / invalid addresses', case, impl['enum'])
         if impl['iter'].get('ok') != [x for _, x in pairs]:
